@@ -97,6 +97,18 @@ Theorem step_bit_memory_register_indirect :
     step s = Ok n (set_opc (pc s + 2) s').
 Proof. exact step_bit_ern_proof. Qed.
 
+(* the same fourteen operations on @aa:8 (prefix 7Eaa / 7Faa), immediate or register bit number: both instruction words in
+   memory, any state, any aa (the second-level sweep at 7E00 / 7F00 is transported to every aa by the structure of the map) *)
+Theorem step_bit_memory_absolute8 :
+  forall s w0 w1 w2 w3 w4 o b a n s',
+    cpu_ok s -> bus_bytes_ok s -> fault s = false -> pc s mod 2 = 0 -> 0 <= pc s -> pc s + 4 < 4294967296 ->
+    mem_read SW s (pc s) = Some w0 -> mem_read SW s (pc s + 2) = Some w1 ->
+    decode_ref w0 w1 w2 w3 w4 = Some (IBit o b (BTMem (EAbs a)), 4) ->
+    sem_ref (IBit o b (BTMem (EAbs a))) 4 s = Some s' ->
+    bit_charge o a (set_opc (pc s + 2) s') = Ok n (set_opc (pc s + 2) s') ->
+    step s = Ok n (set_opc (pc s + 2) s').
+Proof. exact step_bit_abs_proof. Qed.
+
 Print Assumptions bit_kernel.
 Print Assumptions exactly_the_addressed_bit.
 Print Assumptions only_the_named_flag.
@@ -106,3 +118,4 @@ Print Assumptions bit_memory_register_indirect.
 Print Assumptions bit_memory_absolute8.
 Print Assumptions bit_memory_reference.
 Print Assumptions step_bit_memory_register_indirect.
+Print Assumptions step_bit_memory_absolute8.
